@@ -131,6 +131,7 @@ func (u *Unit) build() {
 	st := &State{heap: map[string]Term{}, ghost: map[string]Term{}}
 	st.alloc = c.Fresh("alloc0", SInt)
 	c.Assume(Gt(st.alloc, IntLit(1000)))
+	m.alloc0 = st.alloc
 	u.entrySt = st
 	fr := u.newFrame(u.fn, nil)
 	for _, p := range u.fn.Params {
@@ -140,7 +141,11 @@ func (u *Unit) build() {
 	}
 	for _, fv := range u.fn.FreeVars {
 		v := m.FreshValue(st, "fv_"+fv.Name(), fv.Type())
+		if pv, ok := v.(PtrV); ok {
+			c.Assume(Ne(pv.Base, IntLit(0))) // the cell of a captured variable always exists
+		}
 		fr.freeVars = append(fr.freeVars, v)
+		u.freeVars = append(u.freeVars, v)
 	}
 	// global axioms
 	for _, ax := range u.eng.specs.Axioms {
